@@ -454,10 +454,21 @@ Definition seek_fuel (ts : tseq) : nat := S (length (ts_bps ts)).
 Inductive op :=
 | OpFirst | OpLast | OpNext | OpPrev | OpClear
 | OpSeek (x : coord) | OpSeekIndex (i : Z)
-| OpCopy                       (* other := cur; cur := cur.copy()  (tsk_tree_copy copies every field) *)
+| OpCopy                       (* other := cur; cur := cur.copy()  (tree_copy) *)
 | OpSwap                       (* continue with the other tree *)
 | OpLLSeek (x : coord)         (* tree._ll_tree.seek(x): only the C guard of tsk_tree_seek *)
 | OpLLSeekIndex (i : Z).       (* tree._ll_tree.seek_index(i): only the C guard of tsk_tree_seek_index *)
+
+(* tsk_tree_copy (trees.c, with TSK_NO_INIT as Tree_copy in _tskitmodule.c calls it): every
+   field is transferred — interval, index, sites, num_edges, the WHOLE tree_pos (index, interval,
+   direction and the in / out cursor ranges with their orders: a copy continues in the edge
+   indexes exactly where the original stands), and the arrays (memcpy). *)
+Definition pos_copy (p : tpos) : tpos :=
+  mkPos (p_index p) (p_left p) (p_right p) (p_dir p)
+        (p_in_start p) (p_in_stop p) (p_in_ord p) (p_out_start p) (p_out_stop p) (p_out_ord p).
+Definition tree_copy (t : tree) : tree :=
+  mkTree (t_index t) (t_left t) (t_right t) (pos_copy (t_pos t))
+         (t_parent t) (t_edge t) (t_num_edges t) (t_tracked t) (t_sites t).
 
 (* what the Python call returned / raised *)
 Definition RET_NONE : Z := 2.
@@ -493,7 +504,7 @@ Definition py_step_fuel (fuel : nat) (m : counts_mode) (ts : tseq) (st : tree * 
       let i := if i <? 0 then i + num_trees ts else i in
       if (i <? 0) || (num_trees ts <=? i) then Ok (st, RAISE_INDEX_ERROR)
       else lib_call cur other (tree_seek_index fuel m ts cur i) RET_NONE
-  | OpCopy => Ok ((cur, cur), RET_NONE)
+  | OpCopy => Ok ((tree_copy cur, cur), RET_NONE)
   | OpSwap => Ok ((other, cur), RET_NONE)
   | OpLLSeek x => lib_call cur other (tree_seek fuel m ts cur x) RET_NONE
   | OpLLSeekIndex i => lib_call cur other (tree_seek_index fuel m ts cur i) RET_NONE
